@@ -19,12 +19,24 @@ laid-out line), `loop_layout` (the loop over the lines of several tables in any 
 `finishTables_layout` (record arrays).  `layoutOK2` = `layoutOK` + the documented assumption that
 inside a struct definition every declaration after the first is preceded by a newline (`declNlOK`;
 without it `int a[2]; char t[8];` on one line is mis-typed by the greedy `[...]` of `type()`).
-Not proved: the same statement for the universal-newline text `univNl text` (text-mode `open()`);
-it is executed on every generated case by the harness (stream lay-m, `txt`).
+Second extension round (section `Round2` below):
+  * the domain is widened to `layoutOKW` = `layoutOK` + "inside a struct definition a declaration written
+    with brackets is the last such declaration of its line" (`declLineOK`; declarations without brackets may
+    share a line freely: `int a; int b[2]; int c;` is inside, `int a[2]; char t[8];` on one line stays
+    outside - there the real `type()` and the model both mis-type / raise).  `layoutOK2 ⊆ layoutOKW`
+    (`layoutOK2_sub`), `parseFile_layout_w` is the theorem on the wider domain, `parseFile_layout` its corollary;
+  * text mode: `renders_univNl` - the universal-newline text of a rendering IS a rendering (of the layout
+    `lay.univ`), `univLayout_ok` - that layout is in the domain; hence `parseFile_layout_univNl`:
+    `parseFile2 io (univNl text) = ok (canon d)` on the domain `layoutOKU` = `layoutOKW` + no comment inside a
+    struct definition contains a lone CR (in text mode a lone CR IS a line end: it ends the comment) + no
+    cell, as printed, contains a CR (`tokCrOK`; follows from `docOK2` when the float printer emits no CR:
+    `tokCrOK_of_float`);
+  * raw mode at file level: `parseRaw_layout`, `parseRaw_layout_univNl`.
 Floats under C01's hypothesis H1.
 -/
 import PydlVerif.Lemmas.YannyLayout
 import PydlVerif.Lemmas.YannyLayTop
+import PydlVerif.Lemmas.YannyLayUniv
 namespace PydlVerif.C02
 open PydlVerif.Yanny PydlVerif.YannyRT
 
@@ -392,5 +404,178 @@ set_option maxRecDepth 1000000 in
 /-- the theorem applies to the sample (document, layout) -/
 example : ∀ text, renders intIO layDoc layLay = some text → parseFile2 intIO text = .ok (canon layDoc) :=
   fun text hr => parseFile_layout intIO (fun _ x => parseInt_fmtInt x) layDoc layLay text (by decide) (by decide) hr
+
+/-! ## second extension round: wider domain, text mode, raw mode -/
+
+section Round2
+open PydlVerif.YannyLay PydlVerif.YannyLayScan PydlVerif.YannyLayBlock
+
+/-- the domain of the first extension round is contained in the widened domain -/
+theorem layoutOK2_sub (io : FloatIO F) (d : Doc F) (lay : Layout) (h : layoutOK2 io d lay = true) :
+    layoutOKW io d lay = true := layoutOKW_of_OK2 io d lay h
+
+/-- `type()`'s search on a struct definition in any layout in which a declaration written with brackets
+is the last such declaration of its line (`LineOK`): declarations without brackets may share a line with
+anything; `hnl` of `typeSearch_layout` is the special case `LineOK_of_nl` -/
+theorem typeSearch_layout_w (ms : List Mem) (closePre g1 g2 g3 name g4 : Str)
+    (hms : ∀ m ∈ ms, MemOK m) (hnd : (ms.map (·.N)).Nodup) (hline : LineOK ms)
+    (hcp : tdWsOK false closePre = true)
+    (hg1 : g1 ≠ [] ∧ ∀ c ∈ g1, wsChar c = true) (hg2 : ∀ c ∈ g2, wsChar c = true)
+    (hg3 : ∀ c ∈ g3, wsChar c = true) (hg4 : ∀ c ∈ g4, wsChar c = true)
+    (hname : wordy name) (m : Mem) (hm : m ∈ ms) :
+    typeSearch m.N (structL g1 g2 (bodyL ms closePre) g3 name g4) = some (m.T, m.arr) :=
+  typeSearch_layW ms closePre g1 g2 g3 name g4 hms hnd hline hcp hg1 hg2 hg3 hg4 hname m hm
+
+/-- column typing from a struct definition of the widened domain -/
+theorem typing_layout_w (enums : List EnumDecl) (he : ∀ e ∈ enums, enumOK e = true) (t : TableD F) (l : StructLay)
+    (ht : tableOK2 enums t = true) (hl : structLayOK enums t l = true)
+    (hline : declLineOK enums t.cols l.cols = true)
+    (sts : List Str) (hsel : selectDef sts (upper t.name) = some (structBlk enums t l))
+    (cache : List (Str × List Str))
+    (hcache : ∀ e ∈ enums, lookupLast (upper e.tyName) cache = some e.labels)
+    (hnum : ∀ w ∈ ["short".toList, "int".toList, "long".toList, "float".toList, "double".toList],
+      lookupLast w cache = none) :
+    colSpecs sts (upper t.name) (t.cols.map (·.name)) = .ok (t.cols.map specOfCol) ∧
+    ∀ (k : Nat) (c : Col), t.cols[k]? = some c →
+      rcolOf sts cache (upper t.name) c.name (t.rows.filterMap (fun r => r[k]?)) = .ok (rcolCanon enums c) :=
+  typing_layW enums he t l ht hl hline sts hsel cache hcache hnum
+
+/-- **parseFile_layout_w** - `parseFile_layout` on the widened domain `layoutOKW` (several declarations
+on one line of a struct definition, at most one of them written with brackets per line) -/
+theorem parseFile_layout_w (io : FloatIO F) (h1 : H1 io) (d : Doc F) (lay : Layout) (text : Str)
+    (hd : docOK2 d = true) (hl : layoutOKW io d lay = true) (hr : renders io d lay = some text) :
+    parseFile2 io text = .ok (canon d) := by
+  rw [parseFile2_eq]
+  exact parseFile_layW io h1 d lay text hd hl hr
+
+/-- **renders_univNl** - what text-mode `open()` delivers for a rendered file is itself a rendering: of
+the same document in the layout `lay.univ` (every line end LF, every CR of a white-space run inside a
+definition LF, CRLF collapsed) -/
+theorem renders_univNl (io : FloatIO F) (d : Doc F) (lay : Layout) (text : Str) (hd : docOK2 d = true)
+    (hl : layoutOK io d lay = true) (hc : layoutCrOK lay = true) (ht : tokCrOK io d = true)
+    (hr : renders io d lay = some text) : renders io d lay.univ = some (univNl text) :=
+  renders_univ io d lay text hd hl hc ht hr
+
+/-- the universal-newline layout of a layout of the domain is in the domain -/
+theorem univLayout_ok (io : FloatIO F) (d : Doc F) (lay : Layout) (h : layoutOKW io d lay = true)
+    (hc : layoutCrOK lay = true) : layoutOKW io d lay.univ = true := layoutOKW_univ io d lay h hc
+
+/-- **parseFile_layout_univNl** - layout independence for a file read through text-mode `open()`
+(universal newlines: `\r\n` and a lone `\r` become `\n`): every document of `docOK2`, written in ANY layout
+of the domain `layoutOKU` (line ends LF or CRLF per line, CR / LF / CRLF inside the white space of a
+definition), reads back from the translated text as the document's canonical form -/
+theorem parseFile_layout_univNl (io : FloatIO F) (h1 : H1 io) (d : Doc F) (lay : Layout) (text : Str)
+    (hd : docOK2 d = true) (hl : layoutOKU io d lay = true) (hr : renders io d lay = some text) :
+    parseFile2 io (univNl text) = .ok (canon d) := by
+  rw [parseFile2_eq]
+  exact parseFile_layU io h1 d lay text hd hl hr
+
+/-- the cell part of `layoutOKU` follows from `docOK2` when the float printer emits no CR -/
+theorem tokCrOK_of_float (io : FloatIO F) (h3 : ∀ w x, '\r' ∉ io.fmtF w x) (d : Doc F) (hd : docOK2 d = true) :
+    tokCrOK io d = true := tokCrOK_of_fmt io h3 d hd
+
+/-- **parseRaw_layout** - raw mode at file level: `yanny(file, raw=True)` on a file in any layout of the
+domain returns the keyword pairs in order and, per table, the document's rows as plain lists in that
+table's order (the symbol table lists every table with its columns) -/
+theorem parseRaw_layout (io : FloatIO F) (h1 : H1 io) (d : Doc F) (lay : Layout) (text : Str)
+    (hd : docOK2 d = true) (hl : layoutOKW io d lay = true) (hr : renders io d lay = some text) :
+    ∃ raw, parseRaw2 io text = .ok raw ∧ raw.pairs = d.hdr ∧
+      raw.rows = d.tables.map (fun t => (upper t.name, t.rows)) ∧
+      raw.front.tables = d.tables.map (fun t => (upper t.name, t.cols.map (·.name))) :=
+  parseRaw_layW io h1 d lay text hd hl hr
+
+/-- raw mode through text-mode `open()` -/
+theorem parseRaw_layout_univNl (io : FloatIO F) (h1 : H1 io) (d : Doc F) (lay : Layout) (text : Str)
+    (hd : docOK2 d = true) (hl : layoutOKU io d lay = true) (hr : renders io d lay = some text) :
+    ∃ raw, parseRaw2 io (univNl text) = .ok raw ∧ raw.pairs = d.hdr ∧
+      raw.rows = d.tables.map (fun t => (upper t.name, t.rows)) ∧
+      raw.front.tables = d.tables.map (fun t => (upper t.name, t.cols.map (·.name))) :=
+  parseRaw_layU io h1 d lay text hd hl hr
+
+/-- text mode with the cell condition discharged: for any float printer that emits no CR -/
+theorem parseFile_layout_univNl_float (io : FloatIO F) (h1 : H1 io) (h3 : ∀ w x, '\r' ∉ io.fmtF w x)
+    (d : Doc F) (lay : Layout) (text : Str) (hd : docOK2 d = true) (hl : layoutOKW io d lay = true)
+    (hc : layoutCrOK lay = true) (hr : renders io d lay = some text) :
+    parseFile2 io (univNl text) = .ok (canon d) := by
+  apply parseFile_layout_univNl io h1 d lay text hd _ hr
+  simp only [layoutOKU, Bool.and_eq_true]
+  exact ⟨⟨hl, hc⟩, tokCrOK_of_fmt io h3 d hd⟩
+
+/-- the enum part at file level: whatever the layout of the enum definitions (white space, CR / LF, their
+place in the file), the reader's enum cache maps every enum type to the document's labels, in order -/
+theorem enums_layout (io : FloatIO F) (h1 : H1 io) (d : Doc F) (lay : Layout) (text : Str)
+    (hd : docOK2 d = true) (hl : layoutOKW io d lay = true) (hr : renders io d lay = some text) :
+    ∀ e ∈ d.enums, lookupLast (upper e.tyName) (enumCache (front text).enums) = some e.labels := by
+  obtain ⟨he, het, _, _, _, _⟩ := docOK2_props d hd
+  obtain ⟨infos, _, _, hfront⟩ := front_layW io h1 d lay text hd hl hr
+  rw [hfront]
+  exact (cache_lay d he het _ (layouts_ok io d lay hl).2).1
+
+end Round2
+
+/-! ### the new domains are inhabited, and strictly larger
+
+`layDoc` in a layout with CRLF line ends, a continuation split at a CRLF, lone CRs and CRLFs inside the
+white space of the definitions, a comment inside a struct ended by CRLF, and SEVERAL DECLARATIONS ON ONE
+LINE: `char b<3>;\r STATUS state;` (a lone CR is no line end in the bytes: one line there, two lines in
+text mode; only `b` uses brackets) and `long n; char t[];` : outside `layoutOK2`, inside `layoutOKW` and
+`layoutOKU`; the text differs from its universal-newline form. -/
+
+def layLay2 : Layout :=
+  { finalEol := true,
+    slots := [
+      .filler "#%yanny".toList true,
+      .pair ⟨[], ⟨" ".toList, some ([], true, " ".toList)⟩, [], none, true⟩,
+      .edef ⟨[], "\r".toList, [], "\r\n  ".toList, ["\r  ".toList], "\n".toList, " ".toList, [], [], none, true⟩,
+      .sdef ⟨[], " ".toList, "\r\n".toList,
+        [⟨"\r\n  # magnitudes\r\n  ".toList, " ".toList, true, false, false⟩,
+         ⟨"\n ".toList, "\t".toList, false, true, false⟩,
+         ⟨"\r ".toList, " ".toList, false, false, false⟩],
+        "\r\n".toList, " ".toList, "Obs".toList, "\r".toList, " ".toList, some " def".toList, true⟩,
+      .sdef ⟨[], " ".toList, " ".toList,
+        [⟨" ".toList, " ".toList, false, false, false⟩, ⟨" ".toList, " ".toList, false, false, true⟩],
+        " ".toList, [], "OBSLOG".toList, [], [], none, false⟩,
+      .row 0 ⟨[], "obs".toList,
+        [(⟨" ".toList, none⟩, .many [] .bare [(⟨" ".toList, some ([], true, " ".toList)⟩, .quoted)] []),
+         (⟨" ".toList, none⟩, .one (.braced [])), (⟨" ".toList, none⟩, .one .bare)], [], some " first".toList, true⟩,
+      .row 1 ⟨[], "obslog".toList, [(⟨" ".toList, none⟩, .one .bare), (⟨"\t".toList, none⟩, .one .quoted)], [], none, true⟩,
+      .row 0 ⟨[], "OBS".toList,
+        [(⟨" ".toList, none⟩, .many [] .bare [(⟨" ".toList, none⟩, .bare)] []),
+         (⟨" ".toList, none⟩, .one .quoted), (⟨" ".toList, none⟩, .one .quoted)], [], none, false⟩,
+      .pair ⟨[], ⟨"\t".toList, none⟩, [], none, true⟩] }
+
+set_option maxRecDepth 1000000 in
+example : layoutOK2 intIO layDoc layLay2 = false := by decide
+set_option maxRecDepth 1000000 in
+example : layoutOKW intIO layDoc layLay2 = true := by decide
+set_option maxRecDepth 1000000 in
+example : layoutOKU intIO layDoc layLay2 = true := by decide
+set_option maxRecDepth 1000000 in
+example : (renders intIO layDoc layLay2).isSome = true := by decide
+set_option maxRecDepth 1000000 in
+/-- text mode really changes this file -/
+example : (renders intIO layDoc layLay2).map univNl ≠ renders intIO layDoc layLay2 := by decide
+
+set_option maxRecDepth 1000000 in
+/-- the theorems apply to the sample (document, layout) -/
+example : ∀ text, renders intIO layDoc layLay2 = some text →
+    parseFile2 intIO text = .ok (canon layDoc) ∧ parseFile2 intIO (univNl text) = .ok (canon layDoc) :=
+  fun text hr =>
+    ⟨parseFile_layout_w intIO (fun _ x => parseInt_fmtInt x) layDoc layLay2 text (by decide) (by decide) hr,
+     parseFile_layout_univNl intIO (fun _ x => parseInt_fmtInt x) layDoc layLay2 text (by decide) (by decide) hr⟩
+
+/-- the old domain's sample is also inside the text-mode domain -/
+example : layoutOKU intIO layDoc layLay = true := by
+  set_option maxRecDepth 1000000 in decide
+
+/-- two bracketed declarations on one line stay outside the widened domain -/
+example : declLineOK [] [⟨"a".toList, .i4, 2⟩, ⟨"t".toList, .S 8, 0⟩]
+    [⟨" ".toList, " ".toList, false, false, false⟩, ⟨" ".toList, " ".toList, false, false, false⟩] = false := by decide
+example : declLineOK [] [⟨"a".toList, .i4, 0⟩, ⟨"b".toList, .i4, 2⟩, ⟨"c".toList, .i4, 0⟩]
+    [⟨" ".toList, " ".toList, false, false, false⟩, ⟨" ".toList, " ".toList, false, false, false⟩,
+     ⟨" ".toList, " ".toList, false, false, false⟩] = true := by decide
+/-- a lone CR inside a typedef comment is outside the text-mode domain, a CRLF ending it is inside -/
+example : tdWsCrOK false "\n # a\rb\n ".toList = false := by decide
+example : tdWsCrOK false "\r # ab\r\n\r ".toList = true := by decide
 
 end PydlVerif.C02
